@@ -338,3 +338,83 @@ Proof.
 Qed.
 Theorem class_a_tight_sub_proof : forall pr p, class_a_tight pr p = true -> class_a pr p = true.
 Proof. intros pr p H. exact (class_a_tight_l_sub _ _ _ H). Qed.
+
+(* ------------------------------------------------------------------ a package.use line as ONE chunk *)
+Lemma uniq_In : forall l seen x, In x (uniq seen l) <-> In x l /\ ~ In x seen.
+Proof.
+  induction l as [|y l IH]; intros seen x; cbn [uniq]; [cbn; tauto|].
+  destruct (mem y seen) eqn:E.
+  - apply mem_In in E. rewrite IH. cbn [In]. split.
+    + tauto.
+    + intros [[Hy|H] Hn]; [subst; contradiction | tauto].
+  - apply mem_false in E. cbn [In]. rewrite IH. cbn [In].
+    destruct (N.eq_dec y x) as [Hyx|Hne].
+    + subst. tauto.
+    + split; [tauto|]. intros [[H|H] Hn]; [contradiction|]. right. split; [exact H|]. intros [H1|H1]; tauto.
+Qed.
+Lemma uniq_nil_In l x : In x (uniq [] l) <-> In x l.
+Proof. rewrite uniq_In. cbn. tauto. Qed.
+Lemma cleared_ext a b f : (forall x, In x a <-> In x b) -> cleared a f = cleared b f.
+Proof.
+  intro H. unfold cleared.
+  destruct (existsb (fun t => tclears t f) a) eqn:Ea; destruct (existsb (fun t => tclears t f) b) eqn:Eb; try reflexivity.
+  - apply existsb_exists in Ea as [x [Hx Hc]]. apply H in Hx.
+    assert (X : existsb (fun t => tclears t f) b = true) by (apply existsb_exists; exists x; tauto). congruence.
+  - apply existsb_exists in Eb as [x [Hx Hc]]. apply H in Hx.
+    assert (X : existsb (fun t => tclears t f) a = true) by (apply existsb_exists; exists x; tauto). congruence.
+Qed.
+Lemma clears_negs r g : existsb (fun u => otok_clears u g) r = cleared (negs r) g.
+Proof.
+  unfold cleared. induction r as [|t r IH]; [reflexivity|].
+  cbn [existsb negs flat_map]. rewrite existsb_app, IH.
+  destruct t; cbn [otok_clears existsb app]; unfold tcl, tclears; rewrite ?orb_false_r; try reflexivity.
+Qed.
+
+Lemma line_chunk_raw : forall o s f, npc o = true ->
+  (In f (out_fold o s) <-> In f (poss o) \/ (In f s /\ cleared (negs o) f = false)).
+Proof.
+  induction o as [|t o IH]; intros s f Hn.
+  - cbn. tauto.
+  - cbn [npc] in Hn. apply andb_true_iff in Hn as [Ht Hn].
+    cbn [out_fold fold_left]. fold (out_fold o (otok_apply t s)). rewrite (IH _ f Hn).
+    destruct t as [g|g| |q]; cbn [otok_apply poss negs flat_map app In].
+    + (* a positive token: nothing after it clears it *)
+      apply negb_true_iff in Ht. rewrite clears_negs in Ht.
+      unfold rule_pos. rewrite in_app_iff. cbn [In].
+      split; [|intros [[<-|H]|H]; [right; split; [tauto | exact Ht] | tauto | tauto]].
+      intros [H|[[H|[<-|[]]] Hc]]; tauto.
+    + rewrite rule_neg_In. unfold cleared. cbn [existsb]. rewrite orb_false_iff. tauto.
+    + rewrite rule_neg_In. unfold cleared. cbn [existsb]. rewrite orb_false_iff. tauto.
+    + rewrite rule_neg_In. unfold cleared. cbn [existsb]. rewrite orb_false_iff. tauto.
+Qed.
+
+(* PARTIAL: outside class (e) the one-chunk form of a token list means what the tokens mean *)
+Theorem line_chunk_is_fold_partial_proof : forall o s,
+  npc o = true -> same_set (apply_chunk (to_chunk o) s) (out_fold o s).
+Proof.
+  intros o s Hn f. rewrite apply_chunk_In, (line_chunk_raw o s f Hn). unfold to_chunk. cbn [neg pos].
+  rewrite uniq_nil_In, (cleared_ext (uniq [] (negs o)) (negs o) f (uniq_nil_In (negs o))). tauto.
+Qed.
+
+Theorem line_is_fold_partial_proof : forall ts o s,
+  forallb wf_tok ts = true -> split_line ts = Some o -> class_e ts = false ->
+  same_set (apply_chunk (to_chunk o) s) (line_fold None ts s).
+Proof.
+  intros ts o s Hwf Hs He f. unfold class_e in He. rewrite Hs in He. apply negb_false_iff in He.
+  rewrite (line_chunk_is_fold_partial_proof o s He f). apply splitter_is_fold_proof; assumption.
+Qed.
+
+Definition line_is_fold_full : Prop := forall ts o s,
+  forallb wf_tok ts = true -> split_line ts = Some o ->
+  same_set (apply_chunk (to_chunk o) s) (line_fold None ts s).
+Theorem line_is_fold_refuted_proof : ~ line_is_fold_full /\ class_e [TPos 10; TNeg 10] = true.
+Proof.
+  split; [|reflexivity]. intro H.
+  specialize (H [TPos 10; TNeg 10] [OPos 10; ONeg 10] [] eq_refl eq_refl 10).
+  vm_compute in H. destruct H as [H _]. apply H. left. reflexivity.
+Qed.
+Example line_applies :
+  class_e [TPos 10; TPos 11; TStar; TPos 12; THdr 1; TPos 10; TStar; TNeg 11] = false /\
+  option_map to_chunk (split_line [TPos 10; TPos 11; TStar; TPos 12; THdr 1; TPos 10; TStar; TNeg 11])
+  = Some (cA [0; 1; 101] [12]).
+Proof. vm_compute. auto. Qed.
